@@ -96,9 +96,10 @@ func Run(c *core.Ctx) {
 	}
 	c.Expect("R1.table", 3)
 	c.Expect("R2.step", 12)
-	c.Expect("R2.state", 9)
+	c.Expect("R2.state", 12)
 
 	footer(e)
+	c.Expect("R3.footer", 5)
 	for _, a := range [][2]string{{pkgCupRdb, "verifyDump"}, {pkgCommon, "CheckVersionChecksum"}} {
 		if fn := c.Func(a[0], "", a[1]); fn != nil {
 			verifier(e, fn)
@@ -410,8 +411,18 @@ func stepLoop(c *core.Ctx, fn *core.Fn, name string, as *ast.AssignStmt, b ast.E
 		}
 		k, isC := core.IntConst(info, as0.Rhs[0])
 		postOK := pat.Stmt("_i++").Match(info, l.Post, bd) != nil || pat.Stmt("_i += 1").Match(info, l.Post, bd) != nil
-		c.Check("R2.step", name+"/loop", l.Pos(), isC && k == 0 && postOK && pat.Expr("_i < len(_buf)").Match(info, l.Cond, bd) != nil,
-			"the step must be applied to every byte p[0..len) once, in order: a skipped byte is not covered by the checksum, so its corruption is not detected")
+		stride := int64(1)
+		if b := pat.Stmt("_i += _k").Match(info, l.Post, bd); b != nil {
+			stride, _ = core.IntConst(info, b["_k"].(ast.Expr))
+		}
+		switch {
+		case isC && k != 0 || stride > 1:
+			c.Check("R2.step", name+"/loop", l.Pos(), false, fmt.Sprintf("the step must be applied to every byte p[0..len) once, in order (loop starts at %d, stride %d): a skipped byte is not covered by the checksum, so its corruption is not detected", k, stride))
+		case isC && postOK && pat.Expr("_i < len(_buf)").Match(info, l.Cond, bd) != nil:
+			c.Okf("R2.step", name+"/loop", l.Pos(), "the step is applied to every byte of the input in order")
+		default:
+			und("unrecognised loop header around the step")
+		}
 	case *ast.RangeStmt:
 		if !isParam(l.X) || l.Value == nil || objOf(info, b) == nil || objOf(info, b) != objOf(info, l.Value) {
 			und("byte operand %s is not the range value of the input", c.Src(b))
@@ -521,238 +532,6 @@ func orIdent(e ast.Expr) ast.Expr {
 		return &ast.Ident{Name: "_"}
 	}
 	return e
-}
-
-// ---------------------------------------------------------------------------
-// R2 state: one running field, zero start values, little-endian Sum
-
-func state(c *core.Ctx, cp *crcPkg) {
-	if cp.stepFn == nil {
-		return
-	}
-	info := cp.pk.TypesInfo
-	st := cp.stepFn
-	// the Hash64 implementation: a named type with Write, Sum and Sum64
-	scope := cp.pk.Types.Scope()
-	for _, nm := range scope.Names() {
-		if tn, ok := scope.Lookup(nm).(*types.TypeName); ok {
-			if named, ok := tn.Type().(*types.Named); ok {
-				ms := map[string]bool{}
-				for i := 0; i < named.NumMethods(); i++ {
-					ms[named.Method(i).Name()] = true
-				}
-				if ms["Write"] && ms["Sum"] && ms["Sum64"] {
-					cp.typ = named
-				}
-			}
-		}
-	}
-	key := func(s string) string { return cp.short + "/" + s }
-	if cp.typ == nil {
-		c.Undecidedf("R2.state", key("type"), token.NoPos, "no type with Write/Sum/Sum64 in %s", cp.path)
-		return
-	}
-	tname := cp.typ.Obj().Name()
-	sum64, write, sum := c.Func(cp.path, tname, "Sum64"), c.Func(cp.path, tname, "Write"), c.Func(cp.path, tname, "Sum")
-	if sum64 == nil || write == nil || sum == nil {
-		return
-	}
-	if r, bd := pat.Stmt("return _d._f").Find(info, sum64.Decl.Body, nil); r != nil && len(sum64.Decl.Body.List) == 1 {
-		cp.field = core.FieldOf(info, r.(*ast.ReturnStmt).Results[0])
-		_ = bd
-	}
-	if cp.field == nil {
-		c.Undecidedf("R2.state", key("Sum64"), sum64.Decl.Pos(), "Sum64 does not simply return a field")
-		return
-	}
-	c.Okf("R2.state", key("Sum64"), sum64.Decl.Pos(), "Sum64 returns the running field %s", cp.field.Name())
-	F := cp.field.Name()
-	// Write continues from the field
-	var wparam types.Object
-	if ps := write.Obj.Type().(*types.Signature).Params(); ps.Len() == 1 {
-		wparam = ps.At(0)
-	}
-	stepLHS := st.Decl.Body // find the step assignment's target again
-	var lhs ast.Expr
-	ast.Inspect(stepLHS, func(n ast.Node) bool {
-		if as, ok := n.(*ast.AssignStmt); ok && len(as.Lhs) == 1 {
-			ast.Inspect(as.Rhs[0], func(m ast.Node) bool {
-				if ie, ok := m.(*ast.IndexExpr); ok {
-					if at, ok := info.TypeOf(ie.X).Underlying().(*types.Array); ok && at.Len() == 256 {
-						lhs = as.Lhs[0]
-					}
-				}
-				return true
-			})
-		}
-		return true
-	})
-	calls := core.Calls(write.Decl.Body, info, func(_ *ast.CallExpr, o types.Object) bool { return o == st.Obj })
-	wkey := key("Write-continues")
-	switch {
-	case len(calls) != 1 || wparam == nil:
-		c.Undecidedf("R2.state", wkey, write.Decl.Pos(), "Write does not call the step function exactly once")
-	case core.FieldOf(info, lhs) == cp.field: // method updating the field in place
-		c.Check("R2.state", wkey, calls[0].Pos(), len(calls[0].Args) == 1 && objOf(info, calls[0].Args[0]) == wparam,
-			"Write must feed exactly its argument to the step that updates the running field in place (digest independent of chunking)")
-	default: // pure function step(crc, p) returning the new value
-		sig := st.Obj.Type().(*types.Signature)
-		retOK := true
-		core.Inspect(st.Decl.Body, func(n ast.Node) bool {
-			if r, ok := n.(*ast.ReturnStmt); ok && (len(r.Results) != 1 || !pat.Same(info, strip(info, r.Results[0]), lhs)) {
-				retOK = false
-			}
-			return true
-		})
-		if sig.Params().Len() != 2 || objOf(info, lhs) != sig.Params().At(0) || !retOK {
-			c.Undecidedf("R2.state", wkey, write.Decl.Pos(), "step function is neither an in-place field update nor step(crc, p) returning crc")
-			break
-		}
-		as, bd := pat.Stmt("_d."+F+" = _f(_seed, _p)").Find(info, write.Decl.Body, nil)
-		if as == nil || ast.Unparen(as.(*ast.AssignStmt).Rhs[0]) != ast.Expr(calls[0]) || objOf(info, bd["_p"].(ast.Expr)) != wparam {
-			c.Undecidedf("R2.state", wkey, write.Decl.Pos(), "Write does not store step(..., p) into the running field")
-			break
-		}
-		seed := bd["_seed"].(ast.Expr)
-		cont := pat.Expr("_d."+F).Match(info, seed, pat.Binds{"_d": bd["_d"]}) != nil
-		if _, isC := uint64Const(info, seed); !cont && !isC {
-			c.Undecidedf("R2.state", wkey, as.Pos(), "unrecognised start value %s of the step in Write", c.Src(seed))
-			break
-		}
-		c.Check("R2.state", wkey, as.Pos(), cont, fmt.Sprintf("Write must continue from the running field (found start value %s): restarting makes the digest depend on how the bytes are split across writes (a file read in 4 KiB chunks gets the CRC of its last chunk)", c.Src(seed)))
-	}
-	// zero start values: composite literals, one-shot functions, other writes of the field
-	zero := true
-	var why []string
-	und := false
-	for _, fn := range funcsOf(cp.pk) {
-		ast.Inspect(fn.Decl.Body, func(n ast.Node) bool {
-			switch x := n.(type) {
-			case *ast.CompositeLit:
-				if t := info.TypeOf(x); t != nil && types.Identical(t, cp.typ) {
-					cp.newFns[fn.Obj] = true
-					for i, el := range x.Elts {
-						v := el
-						if kv, ok := el.(*ast.KeyValueExpr); ok {
-							if objOf(info, kv.Key) != cp.field {
-								continue
-							}
-							v = kv.Value
-						} else if cp.typ.Underlying().(*types.Struct).Field(i) != cp.field {
-							continue
-						}
-						if k, isC := uint64Const(info, v); !isC {
-							und = true
-						} else if k != 0 {
-							zero = false
-							why = append(why, fmt.Sprintf("%s creates the digest with %s = %#x", fn.Decl.Name.Name, F, k))
-						}
-					}
-				}
-			case *ast.CallExpr:
-				if core.CalleeFunc(info, x) == st.Obj && fn.Obj != write.Obj && len(x.Args) == 2 {
-					if k, isC := uint64Const(info, x.Args[0]); !isC {
-						und = true
-					} else if k != 0 {
-						zero = false
-						why = append(why, fmt.Sprintf("%s starts the step from %#x", fn.Decl.Name.Name, k))
-					} else {
-						cp.digestFns[fn.Obj] = true
-					}
-				}
-			case *ast.AssignStmt:
-				for i, l := range x.Lhs {
-					if core.FieldOf(info, l) == cp.field && fn.Obj != write.Obj && fn.Obj != st.Obj {
-						if k, isC := uint64Const(info, orIdent(core.AssignedTo(x, i))); !isC || x.Tok != token.ASSIGN {
-							und = true
-						} else if k != 0 {
-							zero = false
-							why = append(why, fmt.Sprintf("%s sets %s = %#x", fn.Decl.Name.Name, F, k))
-						}
-					}
-				}
-			}
-			return true
-		})
-	}
-	switch {
-	case !zero:
-		c.Failf("R2.state", key("zero-init"), cp.typ.Obj().Pos(), "the Redis CRC-64 starts from 0; %s: every checksum computed from that start differs from Redis'", strings.Join(why, "; "))
-	case und || len(cp.newFns) == 0:
-		c.Undecidedf("R2.state", key("zero-init"), cp.typ.Obj().Pos(), "cannot see all start values of the digest in %s", cp.path)
-	default:
-		c.Okf("R2.state", key("zero-init"), cp.typ.Obj().Pos(), "every constructor, one-shot function and Reset starts from 0")
-	}
-	sumLE(c, cp, sum, key("Sum-little-endian"))
-}
-
-func sumLE(c *core.Ctx, cp *crcPkg, sum *core.Fn, key string) {
-	info := cp.pk.TypesInfo
-	isVal := func(e ast.Expr) bool { // the running value: d.F, d.Sum64() or a local holding it
-		e = origin(info, sum.Decl.Body, e)
-		if core.FieldOf(info, e) == cp.field {
-			return true
-		}
-		call, ok := e.(*ast.CallExpr)
-		return ok && core.CalleeFunc(info, call) != nil && core.CalleeFunc(info, call).Name() == "Sum64" && len(call.Args) == 0
-	}
-	for _, call := range core.Calls(sum.Decl.Body, info, func(call *ast.CallExpr, o types.Object) bool {
-		f, _ := o.(*types.Func)
-		return f != nil && f.Name() == "PutUint64" && f.Pkg() != nil && f.Pkg().Path() == "encoding/binary"
-	}) {
-		order := ""
-		if sel, ok := ast.Unparen(call.Fun).(*ast.SelectorExpr); ok {
-			if o := core.ObjOf(info, sel.X); o != nil {
-				order = o.Name()
-			}
-		}
-		if order != "LittleEndian" && order != "BigEndian" || len(call.Args) != 2 || !isVal(call.Args[1]) {
-			c.Undecidedf("R2.state", key, call.Pos(), "unrecognised PutUint64 use in Sum")
-			return
-		}
-		c.Check("R2.state", key, call.Pos(), order == "LittleEndian", "Sum must encode the CRC little-endian as Redis does (found binary."+order+"): trailers written with it are refused by Redis and by the tool's own checkers")
-		return
-	}
-	// append(in, byte(s>>k)) eight times, k = 0, 8, ..., 56
-	var ks []int64
-	okShape := true
-	core.Inspect(sum.Decl.Body, func(n ast.Node) bool {
-		call, ok := n.(*ast.CallExpr)
-		if b, isB := core.Callee(info, orCall(call)).(*types.Builtin); !ok || !isB || b.Name() != "append" || len(call.Args) != 2 || call.Ellipsis.IsValid() {
-			return true
-		}
-		arg := ast.Unparen(call.Args[1])
-		if width(info, arg) != 8 {
-			okShape = false
-			return true
-		}
-		if x, op, k, ok := shiftOf(info, arg); ok && op == token.SHR && isVal(x) {
-			ks = append(ks, k)
-		} else if isVal(strip(info, arg)) {
-			ks = append(ks, 0)
-		} else {
-			okShape = false
-		}
-		return true
-	})
-	if !okShape || len(ks) != 8 {
-		c.Undecidedf("R2.state", key, sum.Decl.Pos(), "unrecognised encoding of the CRC in Sum")
-		return
-	}
-	le := true
-	for i, k := range ks {
-		if k != int64(8*i) {
-			le = false
-		}
-	}
-	c.Check("R2.state", key, sum.Decl.Pos(), le, fmt.Sprintf("Sum must append the CRC bytes least-significant first (shifts 0,8,...,56; found %v): trailers written with it are refused by Redis and by the tool's own checkers", ks))
-}
-
-func orCall(c *ast.CallExpr) *ast.CallExpr {
-	if c == nil {
-		return &ast.CallExpr{Fun: &ast.Ident{Name: "_"}}
-	}
-	return c
 }
 
 // ---------------------------------------------------------------------------
